@@ -56,12 +56,12 @@ mutual
         match parseInt raw with
         | .ok n => .ok (.int .int64 n)
         | .syntax => .err ⟨"ParseInt", raw, .syntax⟩
-        | .range _ => .err ⟨"ParseInt", raw, .range⟩
+        | .range _ => .ok (.float false raw)     -- beyond int64: handed on as the float64 of the text (repair of R15)
       | .float =>
         match parseFloat raw with
         | .ok => .ok (.float false raw)
         | .syntax => .err ⟨"ParseFloat", raw, .syntax⟩
-        | .range _ => .err ⟨"ParseFloat", raw, .range⟩
+        | .range _ => .ok (.float false raw)     -- beyond float64: ±Inf, the float64 of the text (repair of R15)
       | .string | .block | .enum => .ok (.str raw)
       | .boolean =>
         match parseBool raw with
